@@ -52,6 +52,9 @@ def plan(ctx):
         obs.append(Obligation(f"O3.swallow.t{i}", "xh", "c01", "api_swallow", param={"text": text}, timeout=T * 2,
                               bounds="N unbounded; callback calls <= 3",
                               desc=f"{text!r} under a host callback that swallows errors: no host-visible effect at or after the N-th op"))
+    for i, text in enumerate(["l | map(g)", "k + g(k)", "g(1) if l else k"]):
+        obs.append(Obligation(f"O4.ast_names.t{i}", "xh", "c01", "api_ast_names", param={"text": text}, timeout=T * 2,
+                              bounds="N>=1 unbounded; host list <= 3", desc=f"eval({text!r}, ast_names={{g: lambda, k: expr}}): definitions and the lambdas they create are charged to this call"))
     for i, (d, u) in enumerate(CROSS):
         obs.append(Obligation(f"O6.cross_eval.t{i}", "xh", "c01", "cross_eval", param={"define": d, "use": u}, timeout=T * 2,
                               bounds="N1>=4, N2>=1 unbounded; 0..3 intervening evals",
